@@ -28,6 +28,18 @@ def gen_case(rng):
     return {"op": "extrema", "fn": fn, "spin": spin, "kind": kind, "labels": labels, "terms": terms}
 
 
+def exhaustive_cases(polys):
+    out = []
+    for p in polys:
+        for fn in sorted(FNS):
+            spin, quad = FNS[fn]
+            for kind, labels in (("dict", ["a", (1, 2)]), ("PCSO" if spin else "PCBO", ["x", 3]) if not quad else
+                                 ("QUSO" if spin else "QUBO", ["x", 3]), (("QUSOMatrix" if spin else "QUBOMatrix"), [0, 2])):
+                out.append({"op": "extrema", "fn": fn, "spin": spin, "kind": kind, "labels": labels, "terms": pure.instantiate(p, labels),
+                            "exhaustive": True})
+    return out
+
+
 def run_case(case, cid):
     from qubovert import utils, sim
     cls = pure.classes()[case["kind"]]
@@ -74,6 +86,16 @@ def run(tier, out, replay=None):
     rng = common.rng_for(out.seed, "c15")
     try:
         cases = [gen_case(rng) for _ in range(20000 if tier == "thorough" else 3000)]
+        if True:     # also when replaying: case indices refer to the concatenated list
+            polys, udesc = pure.universe("2f" if tier == "thorough" else "2s", wd)
+            ex = exhaustive_cases(polys)
+            if tier == "thorough":
+                polys3, udesc3 = pure.universe("3", wd)
+                ex += [c for c in exhaustive_cases(polys3) if c["kind"] == "dict" and c["fn"].startswith("approximate_pu")]
+                udesc = [udesc, udesc3]
+            cases = ex + cases
+            out.set("exhaustive_universe", udesc)
+            out.set("exhaustive_cases", len(ex))
         for i, c in enumerate(cases):
             c["_index"] = i
         if replay:
